@@ -77,11 +77,14 @@ Theorem C34_accepted_logs_keep_cover : forall u ops b b',
 Proof. exact apply_log_keeps. Qed.
 Print Assumptions C34_accepted_logs_keep_cover.
 
-(* FINDING (real code, corpus/C34/05): the rewrite of a single block (tombstone rule)
+(* DEFECT FOUND AND REPAIRED (C34-fix.patch; real code before the repair, corpus/C34/05):
+   the rewrite of a single block (tombstone rule)
    uploads a result with the SAME sources, marks the source, and the next garbage
    collection marks the result as a duplicate of the just-marked source (equal source
    sets tie-break on the older ULID; the source is still in the compactor's view for
-   deleteDelay/2).  The guard rejects that mark; afterwards no unmarked block holds the data. *)
+   deleteDelay/2).  The guard rejects that mark; afterwards no unmarked block holds the data.  (The repair
+   makes the duplicate filter prefer the higher compaction level among blocks with equally
+   many sources, see Gen/C31.v; the witness below has equal levels = the old behaviour.) *)
 Theorem C34_rewrite_gc_refuted :
   apply_log rw_bucket rw_ops = None /\ first_rejected rw_bucket rw_ops 0 = Some 2%nat
   /\ covers [7] rw_bucket = true /\ covers [7] (apply_log_raw rw_bucket rw_ops) = false.
